@@ -7,6 +7,8 @@ License: 3-clause BSD. (See the COPYRIGHT file)
 
 from __future__ import annotations
 
+import struct
+
 from string import ascii_letters, digits
 from typing import TYPE_CHECKING, Any, Callable, TypeVar
 
@@ -224,6 +226,9 @@ class Section(Error):
             return True
         except ValueError as exc:
             return self.error.set(str(exc))
+        except (IndexError, KeyError, OSError, TypeError, UnboundLocalError, struct.error) as exc:
+            # a value parser gave up on its input in an unexpected way: still a refusal of this line
+            return self.error.set(f"invalid value for '{command}': {exc}")
 
     # Schema-based methods
 
